@@ -65,6 +65,22 @@ def _bydim(stmts):
     return out
 
 
+def _is_fill_call(mf, call) -> bool:
+    """call is `<helper>(outputs, result)` and <helper>(outs, res) is `for o in outs: _replace_data(o, res)` followed by `return res`"""
+    if not (isinstance(call, ast.Call) and isinstance(call.func, ast.Name) and [unparse(a) for a in call.args] == ["outputs", "result"] and not call.keywords):
+        return False
+    fn = mf.functions.get(call.func.id)
+    if fn is None or len(fn.args.args) != 2:
+        return False
+    outs, res = (a.arg for a in fn.args.args)
+    body = [st for st in fn.body if not (isinstance(st, ast.Expr) and isinstance(st.value, ast.Constant))]
+    if len(body) != 2 or not isinstance(body[0], ast.For) or not isinstance(body[1], ast.Return):
+        return False
+    loop = body[0]
+    return (unparse(loop.iter) == outs and isinstance(loop.target, ast.Name) and len(loop.body) == 1 and not loop.orelse
+            and unparse(loop.body[0]) == f"_replace_data({loop.target.id}, {res})" and unparse(body[1].value) == res)
+
+
 def extract_array_ufunc(backend: str, repo=None):
     rel, cls = BACKENDS[backend]
     mf = facts(rel, repo)
@@ -117,6 +133,11 @@ def extract_array_ufunc(backend: str, repo=None):
             action = ("expr", unparse(rest[0].value))
             if any(isinstance(s, ast.For) and unparse(s.iter) == "outputs" for s in rest[1:-1]):
                 outh = "replace"
+        elif len(rest) == 2 and isinstance(rest[0], ast.Assign) and unparse(rest[0].targets[0]) == "result" \
+                and isinstance(rest[1], ast.Return) and _is_fill_call(mf, rest[1].value):
+            # `result = <expr>; return <helper>(outputs, result)` with a helper that fills every output and returns the result
+            action = ("expr", unparse(rest[0].value))
+            outh = "replace"
         else:
             bd = _bydim(rest)
             if bd:
